@@ -146,6 +146,7 @@ static ExecOut execute(const std::vector<BodyDef>& defs, const std::vector<int>&
     g_current.store(-1); g_active = true;
     for (int i = 0; i < n; ++i) {
         std::string dir = scratch + "/t" + std::to_string(i); mkdir(dir.c_str(), 0755);
+        for (auto leaf : {"/out.c3d", "/built.c3d", "/edited.c3d"}) unlink((dir + leaf).c_str());   // every execution starts from the same file-system state (what an earlier execution left at a destination is C14's business)
         th.emplace_back([&, i, dir]() {
             t_tid = i;
 #ifndef VF_FREERUN
